@@ -1,6 +1,534 @@
 package sim
 
-// placeholder until the session oracle is written
+import (
+	"fmt"
+	"math"
+	"sort"
+	"time"
+
+	"github.com/rulego/streamsql/utils/simrt"
+)
+
+// C10 — session windows split a key's events at gaps above the timeout, each event once
+// (DESIGN.md §3 C10). Event time. Variant "twin": the same rows are fed to two instances at two
+// different speeds and the delivered partitions must agree for in-order input.
+
+type c10 struct{}
+
+func init() { register(c10{}) }
+
+func (c10) ID() string { return "C10" }
+
+func genSessionCase(rng *simrt.Rand, tier string, allowAL bool) *Case {
+	max := 30
+	if tier == "thorough" {
+		max = 70
+	}
+	c := genEvCase(rng, tier, evGenOpts{Kinds: []string{"session"}, LateRows: 0.06, MaxRows: max, AllowAL: allowAL, Adversary: true})
+	return c
+}
+
+func (c10) Gen(rng *simrt.Rand, seed uint64, tier string) *Case {
+	c := genSessionCase(rng, tier, false)
+	sp := loadEvSpec(c)
+	// per-key timestamp shaping: rewrite timestamps so that keys see dense bursts and gaps of
+	// timeout-1, timeout, timeout+1 units
+	u := sp.UnitNS
+	toU := sp.Size / u
+	perKeyLast := map[string]int64{}
+	for i := range c.Clients[0] {
+		op := &c.Clients[0][i]
+		if op.K != "emit" || op.Tag == "flush" {
+			continue
+		}
+		ts, ok := op.Row["ts"].(int)
+		if !ok {
+			continue
+		}
+		ks := keyString(rowKeys(op.Row, sp.KeyCols))
+		if last, seen := perKeyLast[ks]; seen && rng.Bool(0.5) {
+			gap := []int64{0, 1, toU / 2, toU - 1, toU, toU + 1, toU * 2}[rng.Intn(7)]
+			if gap < 0 {
+				gap = 0
+			}
+			nts := last + gap
+			// keep the global sequence roughly monotone: only move forward in time
+			if nts >= int64(ts)-sp.OOO/u {
+				op.Row["ts"] = int(nts)
+				ts = int(nts)
+			}
+		}
+		if int64(ts) > perKeyLast[ks] {
+			perKeyLast[ks] = int64(ts)
+		}
+	}
+	// recompute the flush row
+	var maxTS int64 = math.MinInt64
+	for _, op := range c.Clients[0] {
+		if op.K == "emit" && op.Tag != "flush" {
+			if ts, ok := op.Row["ts"].(int); ok && int64(ts) > maxTS {
+				maxTS = int64(ts)
+			}
+		}
+	}
+	for i := range c.Clients[0] {
+		if op := &c.Clients[0][i]; op.Tag == "flush" {
+			op.Row["ts"] = int(maxTS + sp.OOO/u + 3*toU + 1)
+		}
+	}
+	if rng.Bool(0.4) {
+		// twin: second instance, same rows, different feed speed
+		c.Variant = "session-twin"
+		c.Insts = append(c.Insts, c.Insts[0])
+		c.Insts[1].Sinks = []SinkSpec{{Mode: "sync"}}
+		var ops []Op
+		fast := rng.Bool(0.5)
+		for _, op := range c.Clients[0] {
+			if op.K == "emit" {
+				o := op
+				o.I = 1
+				ops = append(ops, o)
+				if !fast && rng.Bool(0.6) {
+					ops = append(ops, Op{K: "sleep", D: int64(time.Duration(250+rng.Intn(500)) * time.Millisecond)})
+				}
+			}
+		}
+		c.Clients = append(c.Clients, ops)
+	}
+	c.FaultFree = c.Insts[0].Sinks[0].Fault == ""
+	return c
+}
+
+func (c10) Run(e *Env) {
+	sp := loadEvSpec(e.C)
+	if _, ok := evRun(e); !ok {
+		return
+	}
+	if len(e.Insts) == 2 {
+		var st map[string]int64
+		if err := e.Do("stats1", func() { st = e.Insts[1].S.GetStats() }); err != nil || st["input_dropped_count"] > 0 || windowDropped(st) > 0 {
+			e.R.Discard = "twin instance overflow or stats failure"
+			return
+		}
+	}
+	l := buildLedgerFor(e, sp, 0)
+	parts0 := checkSessionsInst(e, sp, l, "C10", 0)
+	if len(e.Insts) == 2 {
+		l1 := buildLedgerFor(e, sp, 1)
+		parts1 := checkSessionsInst(e, sp, l1, "C10", 1)
+		compareTwin(e, sp, l, parts0, parts1)
+	}
+}
+
 func checkSessions(e *Env, sp *evSpec, l *evLedger, prop string) {
-	e.R.Discard = "session oracle not built yet"
+	checkSessionsInst(e, sp, l, prop, 0)
+}
+
+// sessionPart: the delivered partition of one key: list of id sets (first deliveries only).
+type sessionPart map[string][][]string
+
+// checkSessionsInst judges the deliveries of instance inst against the session invariants.
+func checkSessionsInst(e *Env, sp *evSpec, l *evLedger, prop string, inst int) sessionPart {
+	timeout := sp.Size
+	parts := sessionPart{}
+	type sess struct {
+		r    *WinResult
+		seq  int
+		g    string
+		ts   []int64
+		prev *sess
+	}
+	var all []*sess
+	byWin := map[string][]*sess{} // key|window_start -> deliveries (re-deliveries share it)
+	rowSeen := map[string][]*sess{}
+	mergedKeys := map[string]bool{}
+	for di, d := range e.Insts[inst].Deliveries {
+		for _, row := range d.Rows {
+			r, err := parseWinResult(d, row, sp.KeyCols)
+			if err != nil {
+				e.Violate(prop+"/malformed-result", "session", "%v", err)
+				continue
+			}
+			if len(r.IDs) == 1 && r.IDs[0] == "flush" {
+				continue
+			}
+			e.Oblig(1)
+			s := &sess{r: r, seq: di, g: keyString(r.Keys)}
+			for _, id := range r.IDs {
+				er := l.ByID[id]
+				if er == nil {
+					e.Violate(prop+"/unknown-row", "session", "result contains id %q that was never emitted", id)
+					continue
+				}
+				if !er.Accepted {
+					e.Violate("C02/garbage-row-in-result", "session", "row %s (ts=%v) has no usable / a far-future timestamp but is reported in a session", id, er.Row["ts"])
+					continue
+				}
+				if er.KeyS != s.g {
+					e.Violate(prop+"/row-in-wrong-group", "session", "row %s of key %s reported in a session of key %s (session [%s,%s))", id, er.KeyS, s.g, fmtNS(r.WS), fmtNS(r.WE))
+					continue
+				}
+				s.ts = append(s.ts, er.TS)
+			}
+			sort.Slice(s.ts, func(i, j int) bool { return s.ts[i] < s.ts[j] })
+			all = append(all, s)
+			// is this a re-delivery (superset of an earlier delivery of the same key)?
+			var prev *sess
+			for _, p := range byWin[s.g] {
+				if len(p.r.IDs) > 0 && containsAll(r.IDs, p.r.IDs) {
+					prev = p
+				}
+			}
+			s.prev = prev
+			if prev == nil && sp.AL > 0 {
+				// the first firing of a session may be overtaken by its own late update: it then shows
+				// up as a strict subset, without late rows, of an earlier delivery of the key
+				overtaken := false
+				for _, p := range byWin[s.g] {
+					if len(r.IDs) < len(p.r.IDs) && containsAll(p.r.IDs, r.IDs) {
+						lateR, lateP := 0, 0
+						for _, id := range r.IDs {
+							if er := l.ByID[id]; er != nil && er.Late {
+								lateR++
+							}
+						}
+						for _, id := range p.r.IDs {
+							if er := l.ByID[id]; er != nil && er.Late {
+								lateP++
+							}
+						}
+						if lateR == 0 && lateP > 0 {
+							overtaken = true
+							e.Violate("C02/first-firing-overtaken-by-late-update", "session", "key %s: the late update %s was delivered before the first firing %s, which then replaced it", s.g, idList(p.r.IDs), idList(r.IDs))
+						}
+					}
+				}
+				if overtaken {
+					continue
+				}
+			}
+			byWin[s.g] = append(byWin[s.g], s)
+			if prev != nil {
+				if sp.AL == 0 {
+					e.Violate(prop+"/session-reported-twice", "session", "key %s: session with rows %s delivered again (now %s) with ALLOWEDLATENESS=0", s.g, idList(prev.r.IDs), idList(r.IDs))
+				} else {
+					e.Probe("late_update_redelivery")
+					old := map[string]bool{}
+					for _, id := range prev.r.IDs {
+						old[id] = true
+					}
+					for _, id := range r.IDs {
+						if er := l.ByID[id]; er != nil && !old[id] && !er.Late && !er.IdleRisk {
+							e.Violate("C02/late-update-adds-on-time-row", "session", "re-delivery of a session of key %s adds row %s which was not late on arrival", s.g, id)
+						}
+					}
+				}
+			} else {
+				parts[s.g] = append(parts[s.g], sortedCopy(r.IDs))
+			}
+			for _, id := range r.IDs {
+				if prev == nil || !contains(prev.r.IDs, id) {
+					rowSeen[id] = append(rowSeen[id], s)
+				}
+			}
+			if msg := checkAggs(r, l.RawByID); msg != "" {
+				e.Violate(prop+"/aggregate-mismatch", "session", "key %s session [%s,%s): %s", s.g, fmtNS(r.WS), fmtNS(r.WE), msg)
+			}
+			if len(s.ts) == 0 {
+				continue
+			}
+			// gaps inside the session
+			merged := false
+			for i := 1; i < len(s.ts); i++ {
+				if s.ts[i]-s.ts[i-1] > timeout {
+					merged = true
+					mergedKeys[s.g] = true
+					e.Violate("C10/gap-merge", "SessionWindow.Add", "key %s: one session reports events at %s and %s, %s apart (timeout %s) with nothing in between", s.g, fmtNS(s.ts[i-1]), fmtNS(s.ts[i]), time.Duration(s.ts[i]-s.ts[i-1]), time.Duration(timeout))
+					break
+				}
+			}
+			if merged {
+				continue // bounds of a wrongly merged session are downstream of the same defect
+			}
+			if prev != nil {
+				// a late update is a re-delivery of the same session: same bounds, same window_id
+				if r.WS != prev.r.WS || r.WE != prev.r.WE || r.WindowID != prev.r.WindowID {
+					e.Violate("C02/late-update-changed-window", "session", "key %s: re-delivery reports [%s,%s) id %s, the previous delivery of the session [%s,%s) id %s", s.g, fmtNS(r.WS), fmtNS(r.WE), r.WindowID, fmtNS(prev.r.WS), fmtNS(prev.r.WE), prev.r.WindowID)
+				}
+				continue
+			}
+			hasLate := false
+			for _, id := range r.IDs {
+				if er := l.ByID[id]; er != nil && er.Late {
+					hasLate = true
+				}
+			}
+			if hasLate && sp.AL > 0 {
+				continue // a late-updated session keeps the bounds (window_id) of its first firing
+			}
+			if r.WS != s.ts[0] {
+				e.Violate("C10/window-start", "session", "key %s: window_start=%s but the session's earliest accepted event is at %s (rows %s)", s.g, fmtNS(r.WS), fmtNS(s.ts[0]), idList(r.IDs))
+			}
+			if r.WE != s.ts[len(s.ts)-1]+timeout {
+				e.Violate("C10/window-end", "session", "key %s: window_end=%s but latest event %s + timeout %s = %s", s.g, fmtNS(r.WE), fmtNS(s.ts[len(s.ts)-1]), time.Duration(timeout), fmtNS(s.ts[len(s.ts)-1]+timeout))
+			}
+			// delivered only after the watermark passed the end (first deliveries)
+			if prev == nil {
+				need := s.ts[len(s.ts)-1] + timeout + sp.OOO
+				have := l.maxAcceptedBefore(d.Emits)
+				idleOK := false
+				if sp.Idle > 0 {
+					if !l.IngestKnown {
+						idleOK = true
+					}
+					var last time.Duration = -1
+					for _, er := range l.Rows {
+						if !er.Usable || er.IngestT > d.T {
+							continue
+						}
+						if er.IdleRisk {
+							idleOK = true
+						}
+						last = er.IngestT
+					}
+					if last >= 0 && d.T-last >= time.Duration(sp.Idle) {
+						idleOK = true
+					}
+				}
+				if have < need && !idleOK {
+					cls := "C10/early-delivery"
+					if prop == "C02" {
+						cls = "C02/early-firing"
+					}
+					e.Violate(cls, "session", "key %s: session ending %s delivered when only %d rows had been emitted, max accepted ts %s < end+OOO %s", s.g, fmtNS(r.WE), d.Emits, fmtNS(have), fmtNS(need))
+				}
+			}
+		}
+	}
+	// per-row obligations
+	perKey := map[string][]*evRow{}
+	for _, er := range l.Rows {
+		if er.ID == "flush" || !er.Accepted {
+			continue
+		}
+		perKey[er.KeyS] = append(perKey[er.KeyS], er)
+	}
+	for _, er := range l.Rows {
+		if er.ID == "flush" || !er.Accepted {
+			continue
+		}
+		seen := rowSeen[er.ID]
+		if len(seen) > 1 {
+			e.Violate(prop+"/event-in-two-sessions", "session", "row %s of key %s is reported in %d different sessions", er.ID, er.KeyS, len(seen))
+		}
+		if er.Late {
+			e.Probe("late_row")
+			if len(seen) > 0 {
+				e.Probe("late_row_kept")
+			}
+			continue
+		}
+		if er.IdleRisk || mergedKeys[er.KeyS] {
+			continue
+		}
+		// completeness: the row's session must have closed by the final watermark if no accepted row of
+		// its key lies within timeout after it up to the flush
+		e.Oblig(1)
+		if len(seen) == 0 && sessionMustHaveClosed(er, perKey[er.KeyS], timeout, l.WMFinal) {
+			cls := "C10/on-time-event-never-reported"
+			if prop == "C02" {
+				cls = "C02/on-time-row-discarded"
+			}
+			e.Violate(cls, "session", "row %s ts=%s of key %s was not late on arrival (watermark %s) but is in no session result; final watermark %s", er.ID, fmtNS(er.TS), er.KeyS, fmtNS(er.WM), fmtNS(l.WMFinal))
+		}
+	}
+	// in-order keys: no split inside the timeout
+	for g, rows := range perKey {
+		if mergedKeys[g] {
+			continue
+		}
+		inOrder := true
+		for i := 1; i < len(rows); i++ {
+			if rows[i].TS < rows[i-1].TS || rows[i].Late || rows[i-1].Late || rows[i].IdleRisk {
+				inOrder = false
+			}
+		}
+		if !inOrder || len(rows) < 2 {
+			continue
+		}
+		e.Probe("in_order_key")
+		for i := 1; i < len(rows); i++ {
+			a, b := rows[i-1], rows[i]
+			if b.TS-a.TS > timeout {
+				e.Probe("gap_above_timeout")
+			}
+			if b.TS-a.TS >= timeout {
+				continue // the boundary itself may go either way
+			}
+			sa, sb := rowSeen[a.ID], rowSeen[b.ID]
+			if len(sa) == 1 && len(sb) == 1 && sa[0] != sb[0] {
+				e.Violate("C10/split-within-timeout", "session", "key %s: in-order events %s (%s) and %s (%s) are %s apart (< timeout %s) but reported in different sessions", g, a.ID, fmtNS(a.TS), b.ID, fmtNS(b.TS), time.Duration(b.TS-a.TS), time.Duration(timeout))
+			}
+		}
+	}
+	// late rows (C02 c/d) for sessions
+	if prop == "C02" {
+		for _, er := range l.Rows {
+			if !er.Accepted || !er.Late || er.IdleRisk || er.ID == "flush" || mergedKeys[er.KeyS] {
+				continue
+			}
+			// sessions of the row's key delivered before the row was emitted
+			var target *sess
+			for _, s := range all {
+				if s.g == er.KeyS && s.r.D.Emits <= er.Idx && len(s.ts) > 0 && er.TS >= s.r.WS && er.TS < s.r.WE {
+					if target == nil || s.seq > target.seq {
+						target = s
+					}
+				}
+			}
+			if target == nil {
+				continue
+			}
+			e.Oblig(1)
+			if er.WM >= target.r.WE+sp.AL {
+				e.Probe("late_row_after_allowance")
+				if len(rowSeen[er.ID]) > 0 {
+					e.Violate("C02/expired-late-row-changed-result", "session", "row %s ts=%s of key %s arrived when the watermark %s had passed end+ALLOWEDLATENESS (%s) of the delivered session containing it, yet it is reported", er.ID, fmtNS(er.TS), er.KeyS, fmtNS(er.WM), fmtNS(target.r.WE+sp.AL))
+				}
+				continue
+			}
+			if sp.AL == 0 {
+				continue
+			}
+			e.Probe("late_row_into_fired_window")
+			ok := false
+			for _, s := range rowSeen[er.ID] {
+				if s.seq > target.seq && s.g == er.KeyS {
+					ok = true
+				}
+			}
+			if !ok {
+				site := "session"
+				for _, o := range all {
+					// the engine keeps one fired session per key open for late updates: a later session
+					// of the key whose end the watermark had passed supersedes it
+					if o.g == er.KeyS && o != target && o.r.WE > target.r.WE && o.r.WE <= er.WM {
+						site = "session/superseded-by-later-session"
+					}
+				}
+				e.Violate("C02/late-update-missing", site, "late row %s ts=%s of key %s arrived (watermark %s) after its session [%s,%s) had been delivered and before the allowance ended (%s), but no later delivery contains it", er.ID, fmtNS(er.TS), er.KeyS, fmtNS(er.WM), fmtNS(target.r.WS), fmtNS(target.r.WE), fmtNS(target.r.WE+sp.AL))
+			}
+		}
+	}
+	if len(mergedKeys) > 0 {
+		e.Probe("gap_merge_seen")
+	}
+	if len(perKey) > 1 {
+		e.Probe("multi_key")
+	}
+	if inst == 0 {
+		e.R.Summary = map[string]any{"kind": "session", "timeout": durSQL(timeout), "ooo": durSQL(sp.OOO), "al": durSQL(sp.AL), "rows": len(l.Rows), "sessions": len(all), "keys": len(perKey)}
+	}
+	return parts
+}
+
+// sessionMustHaveClosed: under the reference sessioniser the session containing er ends at
+// (last event of its run) + timeout; it must have been delivered if that end <= final watermark.
+func sessionMustHaveClosed(er *evRow, rows []*evRow, timeout, wmFinal int64) bool {
+	var ts []int64
+	for _, r := range rows {
+		if !r.Late {
+			ts = append(ts, r.TS)
+		}
+	}
+	sort.Slice(ts, func(i, j int) bool { return ts[i] < ts[j] })
+	last := er.TS
+	for _, t := range ts {
+		if t > last && t-last <= timeout {
+			last = t
+		}
+	}
+	return last+timeout <= wmFinal
+}
+
+func contains(a []string, x string) bool {
+	for _, y := range a {
+		if y == x {
+			return true
+		}
+	}
+	return false
+}
+
+func containsAll(a, b []string) bool {
+	for _, x := range b {
+		if !contains(a, x) {
+			return false
+		}
+	}
+	return true
+}
+
+// buildLedgerFor builds the ledger from the emits addressed to one instance.
+func buildLedgerFor(e *Env, sp *evSpec, inst int) *evLedger {
+	saved := e.Ops
+	var ops []*OpRec
+	for _, rec := range e.Ops {
+		if rec.Op.K == "emit" && rec.Op.I == inst {
+			ops = append(ops, rec)
+		}
+	}
+	e.Ops = ops
+	defer func() { e.Ops = saved }()
+	if inst != 0 || len(e.Insts) > 1 {
+		// ingestion instants are only tracked for single-instance runs
+		savedT := e.IngestT
+		e.IngestT = nil
+		defer func() { e.IngestT = savedT }()
+	}
+	return buildLedger(e, sp)
+}
+
+// compareTwin: for keys whose rows arrive in timestamp order and on time, the delivered
+// partitions of the two instances (fed at different speeds) must be identical.
+func compareTwin(e *Env, sp *evSpec, l *evLedger, a, b sessionPart) {
+	perKey := map[string][]*evRow{}
+	for _, er := range l.Rows {
+		if er.ID != "flush" && er.Accepted {
+			perKey[er.KeyS] = append(perKey[er.KeyS], er)
+		}
+	}
+	for g, rows := range perKey {
+		inOrder := true
+		for i := range rows {
+			if rows[i].Late || (i > 0 && rows[i].TS < rows[i-1].TS) {
+				inOrder = false
+			}
+		}
+		// a gap of exactly the timeout may legitimately go either way (the session's end and the
+		// next event coincide with the watermark): such keys are not compared
+		for i := 1; i < len(rows); i++ {
+			if rows[i].TS-rows[i-1].TS == sp.Size {
+				inOrder = false
+			}
+		}
+		if !inOrder {
+			continue
+		}
+		e.Oblig(1)
+		e.Probe("twin_compared")
+		pa, pb := canonParts(a[g]), canonParts(b[g])
+		if pa != pb {
+			e.Violate("C10/feed-speed-dependent", "SessionWindow.Add", "key %s (in-order input): sessions delivered at one feed speed %s differ from those at another %s", g, pa, pb)
+		}
+	}
+}
+
+func canonParts(p [][]string) string {
+	var s []string
+	for _, ids := range p {
+		s = append(s, idList(ids))
+	}
+	sort.Strings(s)
+	return fmt.Sprint(s)
 }
